@@ -453,7 +453,7 @@ func genSortCase(c *Ctx, lossy bool) *sortCase {
 		sc.Batches = append(sc.Batches, b)
 		left -= b
 	}
-	sc.Limits = []int{1 << 30, 1, 2 + r.Intn(60), 40 + r.Intn(400)}
+	sc.Limits = []int{1 << 30, 1, []int{2 + r.Intn(60), 40 + r.Intn(400)}[r.Intn(2)]}
 	return sc
 }
 
@@ -561,6 +561,8 @@ func checkSort(c *Ctx, sc *sortCase) {
 	c.Stat(fmt.Sprintf("sort:rows:%s", bucket(n)))
 	rp := sc
 	var outs [][]int
+	t00 := time.Now()
+	defer func() { c.StatN("sort:total-ms", int(time.Since(t00).Milliseconds())) }()
 	for _, limit := range sc.Limits {
 		ids, err := realSort(zctx, sc, rows, limit)
 		if err != nil {
@@ -696,7 +698,10 @@ func checkSort(c *Ctx, sc *sortCase) {
 		req.WriteString("))")
 		reqs = append(reqs, req.String())
 	}
-	for li, a := range c.Model().Batch(reqs) {
+	t0 := time.Now()
+	answers := c.Model().Batch(reqs)
+	c.StatN("sort:model-ms", int(time.Since(t0).Milliseconds()))
+	for li, a := range answers {
 		c.Res.ModelCases++
 		var want []string
 		for _, id := range outs[li] {
@@ -722,18 +727,18 @@ func bucket(n int) string {
 }
 
 func runSort(c *Ctx) {
-	for i, n := 0, c.N(250, 5000); i < n; i++ {
+	for i, n := 0, c.N(140, 1600); i < n; i++ {
 		sc := genSortCase(c, false)
 		if i < 2 {
 			c.Sample(sc)
 		}
 		checkSort(c, sc)
 	}
-	for i, n := 0, c.N(40, 600); i < n; i++ {
+	for i, n := 0, c.N(20, 200); i < n; i++ {
 		checkSort(c, genSortCase(c, true))
 	}
 	// the runtime's own field accessor
-	for i, n := 0, c.N(120, 2000); i < n; i++ {
+	for i, n := 0, c.N(60, 600); i < n; i++ {
 		sc := genSortCase(c, false)
 		sc.KeyMode = "dot"
 		if i%2 == 0 {
@@ -816,7 +821,7 @@ func checkQuery(c *Ctx, sc *sortCase) {
 }
 
 func runQuery(c *Ctx) {
-	for i, n := 0, c.N(25, 400); i < n; i++ {
+	for i, n := 0, c.N(15, 120); i < n; i++ {
 		sc := genSortCase(c, false)
 		if i%5 == 0 {
 			// enough rows for several reader batches
@@ -966,7 +971,7 @@ func checkMerge(c *Ctx, mc *mergeCase) {
 }
 
 func runMerge(c *Ctx) {
-	for i, n := 0, c.N(300, 6000); i < n; i++ {
+	for i, n := 0, c.N(150, 3000); i < n; i++ {
 		checkMerge(c, genMergeCase(c))
 	}
 }
